@@ -11,7 +11,7 @@ theorem added_pos {l : List Tp} {c : Comp} (h : CI l c) {k m : Nat} {tp : Tp} (h
   rw [htp] at hy; cases hy
   have hkc : k = c.completed := by
     rcases Nat.lt_trichotomy k c.completed with hlt | heq | hgt
-    · rcases b2 hlt with e | e <;> rw [hst] at e <;> cases e
+    · rcases b2 hlt with e | e | e <;> rw [hst] at e <;> cases e
     · exact heq
     · have := b3 hgt; rw [hst] at this; cases this
   refine ⟨hkc, (b4 hkc).2.2 (by rw [hst]; simp), ?_⟩
@@ -27,7 +27,7 @@ theorem ci_startup {l : List Tp} {c : Comp} {m0 : Nat} {tp x : Tp} (h : CI l c) 
   have hc0 : c.completed = 0 := by
     rcases Nat.eq_zero_or_pos c.completed with e | e
     · exact e
-    · rcases b2 e with e' | e' <;> rw [hst] at e' <;> cases e'
+    · rcases b2 e with e' | e' | e' <;> rw [hst] at e' <;> cases e'
   refine ⟨h.le, ?_, ?_, ?_⟩
   · intro i m hm
     show ∃ tp : Tp, (l.set m0 x)[m]? = some tp ∧ _
@@ -64,17 +64,25 @@ theorem ci_startup {l : List Tp} {c : Comp} {m0 : Nat} {tp x : Tp} (h : CI l c) 
 
 /-- completion callback of the member at position `completed`; `nx` = the next member when some remain -/
 theorem ci_memberCb {l : List Tp} {c : Comp} {clk m : Nat} {tp x1 : Tp} (h : CI l c) (hnd : c.members.Nodup)
-    (hS : ∀ tp ∈ l, tpOK clk tp) (hm : m ∈ c.members) (htp : l[m]? = some tp) (hst : tp.st = .added)
-    (hx1 : x1.st = .inCb ∧ x1.addAt = tp.addAt ∧ x1.early = tp.early)
+    (hS : ∀ tp ∈ l, tpOK clk tp) (hk : c.members[c.completed]? = some m) (htp : l[m]? = some tp) (hnn : tp.st ≠ .notAdded)
+    (hx1 : (x1.st = .inCb ∨ x1.st = .inCbN) ∧ x1.addAt = tp.addAt ∧ x1.early = tp.early)
     (l' : List Tp)
     (hl' : (c.pending - 1 ≤ 0 ∧ l' = l.set m x1) ∨
            (c.pending - 1 > 0 ∧ ∃ (nx : Nat) (tn x2 : Tp), c.members[c.completed + 1]? = some nx ∧ (l.set m x1)[nx]? = some tn ∧
               tn.st = .notAdded ∧ x2.st = .adding ∧ x2.addAt = tn.addAt ∧ x2.cbAt = tn.cbAt ∧ x2.early = tn.early ∧
               l' = (l.set m x1).set nx x2)) :
     CI l' { c with completed := c.completed + 1, pending := c.pending - 1 } := by
-  obtain ⟨k, hkl, hkget⟩ := List.getElem_of_mem hm
-  have hk : c.members[k]? = some m := by rw [List.getElem?_eq_getElem hkl, hkget]
-  obtain ⟨hkc, hpend, hlt⟩ := added_pos h hk htp hst
+  obtain ⟨k, hkc⟩ : ∃ k, k = c.completed := ⟨_, rfl⟩
+  rw [← hkc] at hk
+  have hlt : c.completed < c.members.length := by have := (List.getElem?_eq_some_iff.1 hk).1; omega
+  have hpend : c.pending = (c.members.length : Int) - c.completed := by
+    obtain ⟨y, hy, _, _, _, b4⟩ := h.mem k m hk
+    rw [htp] at hy; cases hy
+    exact (b4 hkc).2.2 hnn
+  have hx1st : x1.st = .inCb ∨ x1.st = .inCbN ∨ x1.st = .done := by
+    rcases hx1.1 with e | e
+    · exact Or.inl e
+    · exact Or.inr (Or.inl e)
   have hnx' : ∀ nx, c.members[c.completed + 1]? = some nx → c.members[k + 1]? = some nx := fun nx e => by rw [hkc]; exact e
   have hearly : tp.early = false := by
     obtain ⟨y, hy, he, _⟩ := h.mem k m hk
@@ -90,7 +98,7 @@ theorem ci_memberCb {l : List Tp} {c : Comp} {clk m : Nat} {tp x1 : Tp} (h : CI 
       · subst e
         have hi : i = k := nodup_get_inj hnd hmm hk
         rw [if_pos rfl]
-        refine ⟨x1, rfl, by rw [hx1.2.2]; exact hearly, fun _ => Or.inl hx1.1, ?_, ?_⟩
+        refine ⟨x1, rfl, by rw [hx1.2.2]; exact hearly, fun _ => hx1st, ?_, ?_⟩
         · intro hlt'; simp only [] at hlt'; omega
         · intro hlt'; simp only [] at hlt'; omega
       · rw [if_neg e]
@@ -144,7 +152,7 @@ theorem ci_memberCb {l : List Tp} {c : Comp} {clk m : Nat} {tp x1 : Tp} (h : CI 
         · subst e
           have hi : i = k := nodup_get_inj hnd hmm hk
           rw [if_pos rfl]
-          refine ⟨x1, rfl, by rw [hx1.2.2]; exact hearly, fun _ => Or.inl hx1.1, ?_, ?_⟩
+          refine ⟨x1, rfl, by rw [hx1.2.2]; exact hearly, fun _ => hx1st, ?_, ?_⟩
           · intro hlt'; simp only [] at hlt'; omega
           · intro hlt'; simp only [] at hlt'; omega
         · rw [if_neg e]
